@@ -165,11 +165,16 @@ fn check(ctx: &Ctx, c: &Case) -> PResult {
         }
     }
     let honest = gadget::honest_logic_choice(&a, &b, pairs);
-    let honest_vec = gadget::logic_vec(pairs, c.xor, &honest);
-    if !g.role_model_matches(2, 0, &honest_vec) {
+    let honest_segs = gadget::logic_segs(pairs, c.xor, &honest);
+    let (ws, we) = g.op_wits(2);
+    let Some(mask) = gadget::fit(&honest_segs, &g.wit[ws..we]) else {
         ctx.label("role model mismatch: adversarial tier skipped");
         return Ok(());
+    };
+    if !gadget::dropped_segments(&honest_segs, &mask).is_empty() {
+        ctx.label("role model fitted with dropped segments");
     }
+    let honest_vec = gadget::flatten(&honest_segs, &mask);
     let w = 2 * pairs;
     let mk = |a_int: U256, b_int: U256, fa: BtsForge, fb: BtsForge, prods: Option<Vec<F>>, outs: Option<Vec<F>>| LogicChoice {
         a_quads: gadget::quads_of(a_int, w),
@@ -246,7 +251,7 @@ fn check(ctx: &Ctx, c: &Case) -> PResult {
     let (start, _) = g.op_wits(2);
     let ret_idx = start + 4 * (pairs - 1) + 3;
     for (name, ch) in cands {
-        let vec = gadget::logic_vec(pairs, c.xor, &ch);
+        let vec = gadget::flatten(&gadget::logic_segs(pairs, c.xor, &ch), &mask);
         if vec.len() != honest_vec.len() {
             continue;
         }
@@ -305,7 +310,7 @@ fn sweep(ctx: &Ctx) {
 }
 
 pub fn props() -> Vec<(Box<dyn PropDyn>, u32, u32)> {
-    vec![(Box::new(Prop::new("logic", case_strategy, check).shrink(300)), 1600, 30000)]
+    vec![(Box::new(Prop::new("logic", case_strategy, check).shrink(300)), 6000, 60000)]
 }
 
 pub fn sweeps(ctx: &Ctx) {
